@@ -17,7 +17,7 @@ var initAllow = map[string]bool{
 	"sort": true, "math": true, "math/bits": true, "path": true, "bufio": true, "context": true,
 	"sync": true, "sync/atomic": true, "unicode": true, "io/fs": false,
 	"regexp": true, "regexp/syntax": true, "slices": true,
-	"net/textproto": true, "mime/multipart": true,
+	"net/textproto": true, "mime/multipart": true, "mime": true,
 	"github.com/bytedance/gopkg/lang/mcache": false,
 }
 
